@@ -701,8 +701,8 @@ func handlerState(gs []gor) (parked int, active []gor) {
 		first := ""
 		for _, f := range append([]string{g.Created}, g.Frames...) {
 			if strings.Contains(f, apiRecv) || strings.Contains(f, ".queryExecutor") || strings.Contains(f, "database/storage/") && strings.Contains(f, ").Query") ||
-				strings.Contains(f, "main.(*seq).stepConcurrent.func") || strings.Contains(f, "main.(*seq).stepGated.func") || strings.Contains(f, "main.(*seq).stepSlowClient.func") ||
-				f == g.Created && (strings.Contains(f, "main.(*seq).stepConcurrent") || strings.Contains(f, "main.(*seq).stepGated") || strings.Contains(f, "main.(*seq).stepSlowClient")) {
+				strings.Contains(f, "main.(*seq).stepConcurrent.func") || strings.Contains(f, "main.(*seq).stepGated.func") || strings.Contains(f, "main.(*seq).stepSlowClient.func") || strings.Contains(f, "main.(*seq).stepInList.func") ||
+				f == g.Created && (strings.Contains(f, "main.(*seq).stepConcurrent") || strings.Contains(f, "main.(*seq).stepGated") || strings.Contains(f, "main.(*seq).stepSlowClient") || strings.Contains(f, "main.(*seq).stepInList")) {
 				rel = true
 			}
 			if first == "" && f != "" && f != g.Created && !strings.HasPrefix(f, "runtime.") {
